@@ -11,6 +11,7 @@ import (
 	"encoding/base64"
 	"encoding/json"
 	"fmt"
+	"net/http"
 	"os"
 	"strconv"
 	"strings"
@@ -190,6 +191,73 @@ func serverWire(name string, plan [][]int, bound int) *vx.Scenario {
 				frames = append(frames, wireFrame{fr.Binary, []byte(fr.Data)})
 			}
 			judgeWire(&r, "server", frames, plan)
+			return r
+		}
+	}
+	return sc
+}
+
+// serverWirePolling: the server -> client direction over the REAL Engine.IO polling transport (the
+// server's packet queue, the eio socket, the polling transport's poll queue and its payload encoder),
+// read by the real Go client over the in-process link. The link delays every long poll by pollDelay, so
+// batches are parked inside the transport between two polls while further flushes happen; emitters
+// pause `gap` between their events so that each event is flushed on its own (gap > 0) or the flushes
+// fall wherever the schedule puts them (gap == 0). The wire (bodies answered to the GET requests) is
+// parsed by the reference decoder.
+func serverWirePolling(name string, plan [][]int, gap, pollDelay time.Duration, bound int) *vx.Scenario {
+	sc := &vx.Scenario{Name: name, Bound: bound, Horizon: 30 * time.Second}
+	sc.Body = func(e *vsched.Exec) func() vx.Result {
+		vsched.SetExploring(false)
+		srv, mgr, link := vrig.NewSioPair(nil, nil)
+		var v vsched.Var
+		var ssock sio.ServerSocket
+		srv.OnConnection(func(s sio.ServerSocket) { v.Do(func() { ssock = s }) })
+		sock := mgr.Socket("/", nil)
+		connected := false
+		var appGot []string
+		sock.OnConnect(func() { v.Do(func() { connected = true }) })
+		sock.OnEvent("e", func(em, seq int) { v.Do(func() { appGot = append(appGot, fmt.Sprintf("%d.%d", em, seq)) }) })
+		sock.Connect()
+		vsched.Await(func() bool { return connected && ssock != nil })
+		vrig.Settle(time.Second)
+		slow := false
+		link.OnRequest = func(n int, r *http.Request) bool {
+			if r.Method == "GET" && slow && pollDelay > 0 {
+				vsched.Sleep(pollDelay) // a slow poller: the next long poll reaches the server late
+			}
+			return false
+		}
+		v.Do(func() { slow = true })
+		nGetBefore := 0
+		link.V.Do(func() { nGetBefore = len(link.GetBodies) })
+		vsched.SetExploring(true)
+		for em := range plan {
+			em := em
+			vsched.GoQuiet(fmt.Sprintf("emitter%d", em), func() {
+				for seq, natt := range plan[em] {
+					if seq > 0 && gap > 0 {
+						vsched.Sleep(gap)
+					}
+					ssock.Emit("e", emitArgs(em, seq, natt)...)
+				}
+			})
+		}
+		return func() vx.Result {
+			var r vx.Result
+			frames, err := postsToFrames(link.GetBodies[nGetBefore:])
+			if err != nil {
+				r.Violate("server wire (polling transport): GET body not decodable", "%v", err)
+				return r
+			}
+			// control packets of the Engine.IO layer (ping, noop) are not message frames and were skipped
+			judgeWire(&r, "server (polling transport)", frames, plan)
+			total := 0
+			for _, p := range plan {
+				total += len(p)
+			}
+			if len(r.Violations) == 0 && len(appGot) != total {
+				r.Violate("server (polling transport): events on the wire did not all reach the client's handlers", "handlers saw %v (%d of %d)", appGot, len(appGot), total)
+			}
 			return r
 		}
 	}
@@ -391,6 +459,9 @@ func scenarios(tier string) []*vx.Scenario {
 		serverWire("server-wire/2x1-binary", [][]int{{1}, {2}}, bw),
 		serverWire("server-wire/2x2-mixed", [][]int{{0, 2}, {1, 0}}, bw),
 		serverWire("server-wire/3x1", [][]int{{2}, {1}, {0}}, bw),
+		serverWirePolling("server-wire-polling/1x4-attachments-4-1-0-2-each-flushed-alone-slow-poller", [][]int{{4, 1, 0, 2}}, time.Millisecond, time.Second, 1),
+		serverWirePolling("server-wire-polling/2x3-mixed-slow-poller", [][]int{{4, 0, 1}, {0, 2, 0}}, time.Millisecond, time.Second, 1),
+		serverWirePolling("server-wire-polling/2x2-mixed-no-gaps", [][]int{{2, 0}, {0, 1}}, 0, 0, bw-2),
 		clientWire("client-wire/2x1-binary", [][]int{{1}, {2}}, bw-2),
 		clientWire("client-wire/2x2-mixed", [][]int{{0, 2}, {1, 0}}, bw-2),
 		serverApp("server-app/2-separate-frames", 2, false, ba),
@@ -418,7 +489,7 @@ func main() {
 		Property: "C02",
 		Level:    "model_checking",
 		Rule: "deviation-bounded exploration of 2-3 concurrent emitters (1-2 events each, 0-2 attachments) on one connection: server side over a harness-implemented eio socket (slow Send), client side over the in-process polling link " +
-			"(POST bodies decoded as Engine.IO payloads); the wire is parsed by a reference decoder written from the v5 protocol. Plus handler-entry order of 2-3 events emitted in a row. Non-trivial = executions with >= 1 deviation",
+			"(POST bodies decoded as Engine.IO payloads), and the server side again over the real Engine.IO polling transport with a slow poller (batches parked in the transport between polls while further flushes happen; GET bodies decoded; up to 4 attachments per event); the wire is parsed by a reference decoder written from the v5 protocol. Plus handler-entry order of 2-3 events emitted in a row. Non-trivial = executions with >= 1 deviation",
 		Scenarios: scenarios,
 		Budget: func(tier string) time.Duration {
 			if tier == "thorough" {
